@@ -3,6 +3,8 @@ Proof: lean/Props/C07.lean about lean/PydapModel/DdsText.lean.
 Tie: real ''.join(dds(ds)) vs model printer, real dds_to_dataset dump vs model parser (printed, foreign and
 malformed texts), real parse(print) vs model `norm`.  Oracle (independent of the model): tree equality
 modulo what a DDS can say, text fixpoint, declared structure of foreign texts."""
+import zlib
+
 import numpy as np
 
 import common
@@ -289,9 +291,17 @@ def build(P, spec):
         return P["BaseType"](name, data, dims=tuple(dims))
     cls = {"st": "StructureType", "sq": "SequenceType", "g": "GridType", "ds": "DatasetType"}[kind]
     out = P[cls](spec[1])
-    for k in spec[2]:
-        child = build(P, k)
+    kids = [build(P, k) for k in spec[2]]
+    # the order a container SHOWS (children(), the DDS) is the order of its visible keys, not the order in which the
+    # members were stored: a third of the Structures/Datasets are stored in reverse and re-ordered by a tuple
+    # selection of all members, which is how a user re-orders a container (a function of the names: replays rebuild it)
+    reorder = kind in ("st", "ds") and len(kids) >= 2 and \
+        zlib.crc32(repr([c.name for c in kids]).encode()) % 3 == 0
+    for child in (reversed(kids) if reorder else kids):
         out[child.name] = child
+    if reorder:
+        out = out[tuple(c.name for c in kids)]
+        assert [c.name for c in out.children()] == [c.name for c in kids]
     return out
 
 
